@@ -139,6 +139,58 @@ func (c06) Generate(r *engine.Rand, index int, tier string) *engine.Scenario {
 		sc.Cycles = at + 40
 		return sc
 	}
+	if index%16 == 9 {
+		// OAM DMA transfers out of work RAM (and its mirror) while the guest stores into the very bytes the
+		// transfer is fetching and reads them back; FF46 rewritten while a transfer runs, at distances
+		// around its length, and read back each time
+		sc.Class = "dma-hot"
+		sc.SetP("lcdoff", 1)
+		at := uint64(r.Range(1, 30))
+		for i, n := 0, r.Range(2, 8); i < n; i++ {
+			page := uint8(r.Range(0xc0, 0xdf))
+			if r.Chance(1, 4) {
+				page = uint8(r.Range(0xe0, 0xf1))
+			}
+			sc.Events = append(sc.Events, engine.Event{At: at, K: "bus_w", A: 0xff46, V: page})
+			start := at
+			src := uint16(page) << 8
+			if src >= 0xe000 {
+				src -= 0x2000
+			}
+			for j, k := 0, r.Range(2, 30); j < k; j++ {
+				c := r.Range(1, 162)
+				b := c - 2 + r.Range(-1, 1)
+				if b < 0 {
+					b = 0
+				}
+				if b > 0x9f {
+					b = 0x9f
+				}
+				a := src + uint16(b)
+				if r.Chance(1, 4) && a < 0xde00 {
+					a += 0x2000 // through the mirror
+				}
+				sc.Events = append(sc.Events, engine.Event{At: start + uint64(c), K: "bus_w", A: a, V: r.Byte()})
+				sc.Events = append(sc.Events, engine.Event{At: start + uint64(c) + uint64(r.Range(1, 200)), K: "bus_r", A: src + uint16(b)})
+			}
+			sc.Events = append(sc.Events, engine.Event{At: start + uint64(r.Range(1, 170)), K: "bus_r", A: 0xff46})
+			gap := uint64(engine.Pick(r, []int{1, 2, 3, 157, 158, 159, 160, 161, 162, 163, 164, 400}))
+			if r.Chance(1, 4) {
+				gap = uint64(r.Range(1, 170))
+			}
+			at = start + gap
+		}
+		sc.Events = append(sc.Events, engine.Event{At: at + 1, K: "bus_r", A: 0xff46})
+		sortEvents(sc.Events)
+		// one bus operation per boundary
+		for i := 1; i < len(sc.Events); i++ {
+			if sc.Events[i].At <= sc.Events[i-1].At {
+				sc.Events[i].At = sc.Events[i-1].At + 1
+			}
+		}
+		sc.Cycles = sc.Events[len(sc.Events)-1].At + 200
+		return sc
+	}
 	sc.Class = "history"
 	lcdoff := index%2 == 0
 	sc.SetP("lcdoff", map[bool]int64{true: 1, false: 0}[lcdoff])
